@@ -622,7 +622,22 @@ func c09GenMsg(r *Rng, tier string, validOnly bool) *c09Msg {
 		if r.Intn(5) == 0 {
 			return c09Text(c09GenValidLabels(r))
 		}
-		return c09Text(pool[r.Intn(len(pool))])
+		nm := c09Text(pool[r.Intn(len(pool))])
+		if r.Intn(6) == 0 {
+			// the same name in another letter case: equal for a DNS comparison, not the same octets — an encoder that
+			// points a record's name at "the same" name written earlier must compare octets
+			b := []byte(nm)
+			for i, c := range b {
+				switch {
+				case c >= 'a' && c <= 'z':
+					b[i] = c - 32
+				case c >= 'A' && c <= 'Z':
+					b[i] = c + 32
+				}
+			}
+			nm = string(b)
+		}
+		return nm
 	}
 	count := func() int {
 		switch r.Intn(12) {
